@@ -203,6 +203,8 @@ def run_mutant(job):
             c = subprocess.run([os.path.join(HERE, "check"), pid, "--tier", "quick", "--seed", str(seed)], cwd=HERE, env=env2, capture_output=True, text=True, timeout=1800)
             lines = [l for l in c.stdout.splitlines() if "violating cases" in l or l.startswith("INCONCLUSIVE")]
             rec["verdict"] = {0: "missed", 1: "caught", 2: "inconclusive"}.get(c.returncode, "exit %d" % c.returncode)
+            if c.returncode == 1 and "VIOLATION property=" not in c.stdout:
+                rec["verdict"] = "error: exit 1 without a VIOLATION line"
             rec["summary"] = (lines[-1].strip() if lines else "")[:300]
         except subprocess.TimeoutExpired:
             rec["verdict"] = "inconclusive"
